@@ -1,6 +1,7 @@
 package main
 
 import (
+	"math/rand"
 	"os"
 	"strings"
 
@@ -18,11 +19,11 @@ func cmdStability(args []string) {
 	g := lint.GlobalRegistry()
 	cfg := g.GetConfiguration()
 	res := ev.M{}
-	for _, o := range append(append(c.Certs, c.CRLs...), c.OCSPs...) {
-		if o.ID != only {
+	_ = c
+	for _, t := range append(loadTargets(c), extraTargets(rand.New(rand.NewSource(seed)))...) {
+		if t.ID != only {
 			continue
 		}
-		t := fromObj(o)
 		ls := lintsOf(g, t.Kind)
 		for i := range ls {
 			for _, n := range names {
